@@ -8,6 +8,16 @@ import (
 	"time"
 )
 
+// pick: the launch of a reader's graceful cancellation is no earlier than the call of the first
+// writer that waited for it while it was inside; if it was admitted while this writer already
+// waited, no earlier than this writer's own call.
+func pick(firstW, callAt time.Duration) time.Duration {
+	if firstW != 0 {
+		return firstW
+	}
+	return callAt
+}
+
 func (r *run) elapsed() time.Duration { return time.Since(r.t0) }
 
 // logTicks brings the model clock (1 tick = 1 ms) up to the measured elapsed time. Caller holds r.mu
@@ -28,6 +38,7 @@ func (r *run) outerLock(t int, st Step) func() {
 			if st.Ms == 1 {
 				pre = 1
 			}
+			rcallAt := r.elapsed()
 			r.s.log("call t=%d op=rlock pre=%d", t, pre)
 			var (
 				rctx   context.Context
@@ -54,7 +65,18 @@ func (r *run) outerLock(t int, st Step) func() {
 				r.s.log("ret t=%d v=%d", t, v)
 				return
 			}
-			th.ph, th.rctx, th.unlock, th.inside, th.toldAt = phHolding, rctx, cancel, true, 0
+			th.ph, th.rctx, th.unlock, th.inside, th.toldAt, th.firstW = phHolding, rctx, cancel, true, 0, 0
+			if r.wPending > 0 {
+				// admitted while a writer already waits: the launch of its graceful cancellation is no
+				// earlier than its admission, which is no earlier than its own call and the last writer unlock
+				th.firstW = rcallAt
+				if r.lastWUnlock > th.firstW {
+					th.firstW = r.lastWUnlock
+				}
+				if th.firstW == 0 {
+					th.firstW = 1
+				}
+			}
 			// no reader is admitted while a writer holds (while running)
 			if w := r.occW[0].Load(); w != 0 && !r.shutdown {
 				r.viol = append(r.viol, violation{"outer-reader-during-writer", fmt.Sprintf("reader %d admitted while %d writer(s) hold the lock", t, w)})
@@ -67,6 +89,12 @@ func (r *run) outerLock(t int, st Step) func() {
 		r.mu.Lock()
 		callAt := r.elapsed()
 		r.wCalls[t] = callAt
+		r.wPending++
+		for _, ot := range r.th {
+			if ot.inside && ot.firstW == 0 {
+				ot.firstW = callAt // the first writer that has to wait for this reader
+			}
+		}
 		r.mu.Unlock()
 		r.s.log("call t=%d op=lock", t)
 		var fn context.CancelFunc
@@ -77,6 +105,7 @@ func (r *run) outerLock(t int, st Step) func() {
 		grantAt := r.elapsed()
 		r.mu.Lock()
 		r.logTicks(grantAt)
+		r.wPending--
 		th.ph, th.unlock = phHolding, fn
 		if !r.shutdown {
 			if w := r.occW[0].Add(1); w != 1 {
@@ -92,8 +121,8 @@ func (r *run) outerLock(t int, st Step) func() {
 				if ot.rctx.Err() == nil {
 					r.viol = append(r.viol, violation{"outer-writer-with-live-reader", fmt.Sprintf("writer %d granted while reader %d is inside with a live context", t, u)})
 					r.abort.Store(true)
-				} else if context.Cause(ot.rctx) == errOuter && (ot.toldAt == 0 || ot.toldAt > callAt) && grantAt-callAt < time.Duration(r.c.GraceMs)*time.Millisecond {
-					r.viol = append(r.viol, violation{"outer-writer-before-grace", fmt.Sprintf("writer %d granted %v after its call although reader %d had not released (grace %dms)", t, grantAt-callAt, u, r.c.GraceMs)})
+				} else if base := ot.firstW; context.Cause(ot.rctx) == errOuter && grantAt-pick(base, callAt) < time.Duration(r.c.GraceMs)*time.Millisecond {
+					r.viol = append(r.viol, violation{"outer-writer-before-grace", fmt.Sprintf("writer %d granted at %v although reader %d had not released and the first writer waiting for it called Lock at %v (grace %dms)", t, grantAt, u, ot.firstW, r.c.GraceMs)})
 					r.abort.Store(true)
 				}
 			}
@@ -117,6 +146,7 @@ func (r *run) outerUnlock(t int, st Step) func() {
 			r.mu.Lock()
 			r.occW[0].Add(-1)
 			delete(r.wCalls, t)
+			r.lastWUnlock = r.elapsed()
 			r.mu.Unlock()
 			r.s.log("call t=%d op=unlock", t)
 		}
